@@ -388,6 +388,9 @@ type Store struct {
 	// WrapSentinels: documented sentinel errors (op.ErrInvalidRefreshToken, op.ErrDuplicateUserCode) are returned
 	// wrapped with context instead of bare
 	WrapSentinels bool
+	// UnknownClientAs: how an unknown client id is reported: "" = a plain not-found error, "oauth" = the storage's own
+	// OAuth error (invalid_client), "oauth-wrapped" = that error wrapped with context
+	UnknownClientAs string
 	// counters of the rarely used capabilities
 	EndFromRequestCalls, ThirdPartyAccepted int
 }
@@ -898,6 +901,12 @@ func (s *Store) GetClientByClientID(ctx context.Context, id string) (op.Client, 
 	defer s.mu.Unlock()
 	c := s.clientFor(id)
 	if c == nil {
+		switch s.UnknownClientAs {
+		case "oauth":
+			return nil, oidc.ErrInvalidClient().WithDescription("client %s not found", id) // the storage's own OAuth error
+		case "oauth-wrapped":
+			return nil, fmt.Errorf("simstore: lookup of %q: %w", id, oidc.ErrInvalidClient().WithDescription("no such client"))
+		}
 		return nil, notFound{"client"}
 	}
 	return c, nil
